@@ -60,6 +60,7 @@ def run(ctx):
     save_restore(ctx, "R18.4")
     ctx.rule("R18.5", "copy constructors copy a field whenever it is present: presence is `is not None`, never truthiness")
     presence_tests(ctx)
+    linked_points_are_copies(ctx)
 
 
 # --------------------------------------------------------------------------- kinds
@@ -421,3 +422,21 @@ def presence_tests(ctx):
                    not bare, "test `%s`" % ast.unparse(node.test)[:60], node.lineno,
                    "a truth test takes 0 / 0.0 / an empty value for 'absent': the copy of an element with stroke-width 0 has stroke_width None")
     ctx.need(n >= 5, "R18.5", "conditionals over source fields in copy constructors not found (%d)" % n)
+
+
+def linked_points_are_copies(ctx, rule="R18.1"):
+    """Path._validate_connection links neighbouring segments by giving one the other's point.  Every such store must be a copy
+    (Point(x) / copy(x)): with the object itself stored, the end of one segment and the start of the next are one Point, and an
+    in-place transform (reify, @=, Subpath *=) maps it twice."""
+    n = 0
+    for q in ("Path._validate_connection", "Path._validate_close", "Path._validate_move", "Path._validate_subpath"):
+        fn = ctx.fn(q, rule)
+        for st in ast.walk(fn):
+            if isinstance(st, ast.Assign) and len(st.targets) == 1 and isinstance(st.targets[0], ast.Attribute) and st.targets[0].attr in ("start", "end"):
+                v = st.value
+                arms = [v.body, v.orelse] if isinstance(v, ast.IfExp) else [v]
+                n += 1
+                ok = all((isinstance(a, ast.Call) and call_name(a) in ("Point", "copy")) or (isinstance(a, ast.Constant) and a.value is None) for a in arms)
+                ctx.ob(rule, "%s[%s = ...]" % (q, ast.unparse(st.targets[0])), ok, ast.unparse(v)[:60], st.lineno,
+                       "a linked end point must be a copy: path1 + path2 followed by an in-place transform otherwise moves the shared point twice")
+    ctx.need(n >= 6, rule, "connection stores not found (%d)" % n)
